@@ -143,10 +143,13 @@ def frame(df, cols=None):
     return out
 
 
-def deletion_frame(df):
+def deletion_frame(df, growth=True):
+    """growth=False (MOMA / ROOM based deletions): the reported growth is the value of the old objective at ONE optimum of
+    the MOMA / ROOM problem (and the reference is a pFBA vertex when no solution is given); it is not uniquely defined and
+    does vary with the solver's warm start - only the statuses are compared"""
     out = {}
     for _, row in df.iterrows():
-        out[repr(sorted(row["ids"]))] = (row["status"], num(row["growth"]) if row["status"] == "optimal" else None)
+        out[repr(sorted(row["ids"]))] = (row["status"], num(row["growth"]) if growth and row["status"] == "optimal" else None)
     return out
 
 
@@ -231,11 +234,11 @@ def analyses(tier):
             if proc == 2 and method not in ("fba", "linear moma"):
                 continue
             A[f"single_gene_deletion:method={method},processes={proc}"] = \
-                lambda m, ref, me=method, n=proc: deletion_frame(fa.single_gene_deletion(m, method=me, processes=n))
+                lambda m, ref, me=method, n=proc: deletion_frame(fa.single_gene_deletion(m, method=me, processes=n), me == "fba")
             A[f"single_reaction_deletion:method={method},processes={proc}"] = \
-                lambda m, ref, me=method, n=proc: deletion_frame(fa.single_reaction_deletion(m, method=me, processes=n))
+                lambda m, ref, me=method, n=proc: deletion_frame(fa.single_reaction_deletion(m, method=me, processes=n), me == "fba")
     A["single_gene_deletion:gene_list,solution"] = lambda m, ref: deletion_frame(fa.single_gene_deletion(
-        m, gene_list=list(m.genes[:2]), method="linear moma", solution=ref.optimize(), processes=1))
+        m, gene_list=list(m.genes[:2]), method="linear moma", solution=ref.optimize(), processes=1), False)
     A["single_reaction_deletion:reaction_list"] = lambda m, ref: deletion_frame(fa.single_reaction_deletion(
         m, reaction_list=[m.reactions[0].id], processes=1))
     for proc in (1, 2):
@@ -244,7 +247,7 @@ def analyses(tier):
         A[f"double_reaction_deletion:processes={proc}"] = lambda m, ref, n=proc: deletion_frame(fa.double_reaction_deletion(
             m, reaction_list1=list(m.reactions[:3]), reaction_list2=list(m.reactions[1:4]), processes=n))
     A["double_reaction_deletion:method=linear room"] = lambda m, ref: deletion_frame(fa.double_reaction_deletion(
-        m, reaction_list1=list(m.reactions[:2]), method="linear room", processes=1))
+        m, reaction_list1=list(m.reactions[:2]), method="linear room", processes=1), False)
     # production envelope
     A["production_envelope:default"] = lambda m, ref: frame(fa.production_envelope(m, reactions=[ex(m)[0]], points=3),
                                                             ["flux_minimum", "flux_maximum"])
@@ -432,7 +435,8 @@ def run_case(spec, label, ctx):
         if d2:
             fails[f"{name}:model-changed-by-second-call"] = f"{label} on {spec}: second call left the model changed: {fmt_diff(d2)}"
     if r1[0] != r2[0] or (r1[0] == "raised" and r1[1] != r2[1]):
-        fails[f"{name}:not-repeatable"] = f"{label} on {spec}: first call {r1[0]} {str(r1[1])[:120]}, second call {r2[0]} {str(r2[1])[:120]}"
+        fails[f"{name}:not-repeatable:{r1[0]}-then-{r2[0]}"] = \
+            f"{label} on {spec}: first call {r1[0]} {str(r1[1])[:120]}, second call {r2[0]} {str(r2[1])[:120]}"
     elif r1[0] == "returned" and not label.startswith(REPEAT_OUTCOME_ONLY) and not same(r1[1], r2[1]):
         fails[f"{name}:not-repeatable"] = f"{label} on {spec}: first call gave {str(r1[1])[:300]}, second call {str(r2[1])[:300]}"
     if ctx:
